@@ -580,9 +580,8 @@ def run(env, with_model=True):
                "textwrap.indent insert spaces inside the literal (still a constant; the oracle covers them)")
     env.assume("dictionary decompression is an arbitrary function in the proof (escape_string makes any string safe); secrets.token_hex ids are "
                "modelled as decimal counters (hex digits are within [A-Za-z0-9_] as well)")
-    env.assume("a raw carriage return in a string payload is left unescaped: the text is then not valid Python at all (SyntaxError for the whole "
-               "module, counted in oracle_syntax_errors_not_C18; property C02), it cannot close the literal (C18_string_closed); "
-               "C18_strict_partial gives the exact automaton when the source has no carriage return")
+    env.assume("a carriage return in a string payload is escaped like a newline (it used to be emitted raw, which made the whole module a "
+               "SyntaxError: repaired in /repo); C18_string states the exact one-literal automaton for every string")
     env.assume("safe_text is a per-chunk predicate: that vocabulary lines are emitted only as whole templates is a fact of the model's structure, "
                "and that each template is a complete compilation unit is a translator fact (templates_self_contained)")
 
